@@ -11,7 +11,7 @@ RULE = (
     "stage+transfer of a generated tree or by add, one or two victims among file and directory objects, tamper in {truncate, "
     "append, same-length rewrite, different-length rewrite, replace-by-rename}, always left unprotected (0644) with a changed "
     "(inode, mtime, size) token; probe in {check, local oids_exist mixing intact and tampered ids, object checkout of the file or "
-    "of the tree containing it, verifying add of a source whose bytes do not match}).  Intact objects are probed too (also "
+    "of the tree containing it, verifying add of a source whose bytes do not match}); optionally the tampered object is first added again through the handle that added it, the existence query carries 250-700 further absent ids, or the removal of the rejected object is denied (EACCES injected at the unlink: raising is fine, serving is not).  Intact objects are probed too (also "
     "after being unprotected).  non-trivial = every case; distinct = (content, tamper, probe, configuration)"
 )
 ASSUMPTIONS = [
@@ -20,7 +20,7 @@ ASSUMPTIONS = [
     "existence queries reject corruption on local stores only (the base store's query is existence-only, as the statement says)",
 ]
 MONITORS = "verdicts of check / oids_exist / checkout / verifying add compared with the harness's own ground truth of which objects were tampered; file presence and mode bits re-read from disk"
-REQUIRED_COUNTERS = ["verify_transfer_rounds", "verify_add_over_intact_object", "read_only_handle_probes", "used_intact_before_tamper", "probe/check", "probe/oids_exist", "probe/checkout", "probe/verify-add", "state/warm", "state/cold", "state/none",
+REQUIRED_COUNTERS = ["re_adds_of_tampered_object", "probes_with_removal_denied", "big_existence_queries", "verify_transfer_rounds", "verify_add_over_intact_object", "read_only_handle_probes", "used_intact_before_tamper", "probe/check", "probe/oids_exist", "probe/checkout", "probe/verify-add", "state/warm", "state/cold", "state/none",
                      "tampered_objects", "intact_objects_checked", "store/local", "store/base", "tamper/truncate", "tamper/append",
                      "tamper/same-length", "tamper/diff-length", "tamper/rename", "unprotected_intact_checked"]
 
@@ -215,6 +215,34 @@ def run_shard(ctx):
                 if rng.random() < 0.3:
                     os.chmod(objs[o], 0o644)
                     unprot.add(o)
+            # the tampered object is added again through the very handle that added it first (same source, plain add)
+            if rng.random() < 0.3:
+                by_oid = {H("md5", v_): os.path.join(ws, *k_) for k_, v_ in files.items()}
+                for v in sorted(victims):
+                    if v in by_oid:
+                        res.count("re_adds_of_tampered_object")
+                        odb_add.add([by_oid[v]], fs, [v])
+                        if os.path.exists(objs[v]) and H("md5", file_bytes(objs[v])) == v:
+                            victims.discard(v)  # repaired: an intact object from here on
+                            newbytes.pop(v, None)
+                            res.count("re_adds_that_repaired")
+                if not victims:
+                    victims = set()
+                intact = [o for o in oids if o not in victims]
+                cfg["re_added"] = True
+            # removal of the rejected object may be denied (shared cache / read-only mount): nothing may be served then either
+            deny = rng.random() < 0.12 and bool(victims)
+            denier = None
+            if deny:
+                import errno as _errno
+
+                from ..monitors import AuditHub, FaultInjector
+
+                vpaths = {os.path.abspath(objs[v]) for v in victims}
+                denier = FaultInjector(lambda kind, p_, p2_: kind == "remove" and p_ is not None and os.path.abspath(p_) in vpaths, err=_errno.EACCES)
+                AuditHub.add(denier)
+                res.count("probes_with_removal_denied")
+                cfg["removal_denied"] = True
             cfg.update({"tamper": how, "victims": sorted(victims), "objects": len(oids)})
             res.nontrivial(sorted((("/".join(k)), H("md5", v)) for k, v in files.items()), how, probe, cls, smode, sorted(victims))
             res.sample(cfg)
@@ -236,8 +264,12 @@ def run_shard(ctx):
                         odb.check(v)
                         res.violation(f"corrupt-object-passed-check/{how}/state-{smode}", f"check({v}) returned normally for tampered bytes", case=case, detail=cfg)
                     except ObjectFormatError:
-                        if not gone(v):
+                        if not gone(v) and not deny:
                             res.violation("corrupt-object-not-removed", f"check({v}) raised but the file is still there", case=case, detail=cfg)
+                    except PermissionError:
+                        if not deny:
+                            raise
+                        res.count("loud_permission_errors")
                     except FileNotFoundError:
                         res.violation("corrupt-object-check-filenotfound", "check raised FileNotFoundError for an existing tampered object", case=case, detail=cfg)
                 for o in intact:
@@ -251,20 +283,30 @@ def run_shard(ctx):
                     check_intact(o, "check")
             elif probe == "oids_exist":
                 q = list(oids) + [H("md5", b"absent")]
+                if rng.random() < 0.3:
+                    # a big query (hundreds of mostly absent ids)
+                    q += [H("md5", b"absent-%d" % i) for i in range(rng.choice([256, 300, 700]))]
+                    res.count("big_existence_queries")
                 rng.shuffle(q)
-                got = set(odb.oids_exist(q))
-                for v in victims:
+                try:
+                    got = set(odb.oids_exist(q))
+                except PermissionError:
+                    if not deny:
+                        raise
+                    res.count("loud_permission_errors")
+                    got = None
+                for v in victims if got is not None else ():
                     if v in got:
                         res.violation(f"corrupt-object-reported-existing/{how}/state-{smode}", f"oids_exist lists tampered {v}", case=case, detail=cfg)
-                    if not gone(v):
+                    if not gone(v) and not deny:
                         res.violation("corrupt-object-not-removed/oids_exist", f"tampered {v} still on disk after the existence query", case=case, detail=cfg)
-                for o in intact:
+                for o in intact if got is not None else ():
                     if o not in got:
                         res.violation("intact-object-rejected/oids_exist", f"oids_exist does not list intact {o}", case=case, detail=cfg)
                     if o in unprot:
                         res.count("unprotected_intact_checked")
                     check_intact(o, "oids_exist")
-                if H("md5", b"absent") in got:
+                if got is not None and H("md5", b"absent") in got:
                     res.violation("absent-object-reported-existing", "oids_exist lists an id that is not in the store", case=case, detail=cfg)
             else:
                 out = os.path.join(d, "out")
@@ -280,6 +322,10 @@ def run_shard(ctx):
                         res.violation(f"checkout-served-corrupt-object/file/{how}", f"checkout of tampered {v} returned {ret!r}", case=case, detail=cfg)
                     except (CheckoutError, ObjectFormatError, FileNotFoundError):
                         pass
+                    except PermissionError:
+                        if not deny:
+                            raise
+                        res.count("loud_permission_errors")
                     if os.path.lexists(outp) and os.path.isfile(outp) and file_bytes(outp) != b"":
                         res.violation("checkout-materialised-corrupt-bytes/file", "a file was created from a tampered object", case=case, detail=cfg)
                 else:
@@ -290,6 +336,11 @@ def run_shard(ctx):
                         raised = True
                     except (ObjectFormatError, FileNotFoundError):
                         raised = True
+                    except PermissionError:
+                        if not deny:
+                            raise
+                        raised = True
+                        res.count("loud_permission_errors")
                     got = walk_files(out) if os.path.isdir(out) else {}
                     bad_rel = {k for k, v in files.items() if H("md5", v) in file_victims}
                     if file_victims and not raised:
@@ -305,9 +356,23 @@ def run_shard(ctx):
                     if not o.endswith(DIR_SUFFIX):
                         if gone(o):
                             res.violation("intact-object-deleted/checkout", f"intact object {o} disappeared during checkout", case=case, detail=cfg)
+            if denier is not None:
+                from ..monitors import AuditHub
+
+                AuditHub.remove(denier)
             if state:
                 state.close()
             env.reset_staging()
             ctx.drop(d)
 
-        ctx.guard(case, one)
+        def one_guarded(case=case, one=one):
+            try:
+                one()
+            finally:
+                from ..monitors import AuditHub
+
+                for h in list(AuditHub._handlers):
+                    if type(h).__name__ == "FaultInjector":
+                        AuditHub.remove(h)
+
+        ctx.guard(case, one_guarded)
